@@ -357,6 +357,11 @@ func reachableRefs(lay *fsgen.Layout) []fsgen.RefSite {
 			}
 			if t, err := fsgen.Resolve(lay.Files, s.File, s.Ref); err == nil {
 				for _, f := range t.Files {
+					// a pointer into a single-element file reads the file but resolves only what the
+					// pointer designates (a leaf here): references elsewhere in that file are not demanded
+					if i := strings.Index(s.Ref, "#"); i > 0 && !strings.Contains(lay.Files[f], `"openapi"`) {
+						continue
+					}
 					if !reach[f] {
 						reach[f] = true
 						changed = true
